@@ -23,7 +23,7 @@ PROPS = {
     "C18": {"quick": [J("^vhC18_sort_n3$", samples=4, **SORT), J("^vhC18_(reader_c2|writer_n2)$", samples=4, **STDIO), J("^vhC18_template", samples=3, **TPL), J("^vhC18_(strconv|format)_n2$", samples=3, **SCONV), J("^vhC18_time_n2$", samples=3, **TIMEP)],
             "thorough": [J("^vhC18_sort_n3$", samples=8, **SORT), J("^vhC18_(reader_c3|writer_n3)$", samples=8, **STDIO), J("^vhC18_template", preempt=1, samples=3, maxpaths=1500000, **TPL), J("^vhC18_(strconv_n3|format_n2)$", samples=3, **SCONV), J("^vhC18_time_n3$", samples=3, **TIMEP)], "bounds": {"sort_items": 3, "chunk_bytes": 3},
             "assumptions": ["sort.Slice / sort.SliceStable are contract stubs: every permutation sorted w.r.t. less is explored (stable: ties keep their order)",
-                            "partial claim: sort, stdio, template and strconv plugins (template, strconv and time through library stubs whose results are uninterpreted functions of the arguments: the plumbing is checked, not the real text/calendar behaviour of the wrapped library); regexp/base64/json/gob/csv wrappers are not encoded"]},
+                            "partial claim: sort, stdio, template and strconv plugins (template, strconv, time, regexp, base64, json, gob and csv through library stubs whose results are uninterpreted functions of the arguments: the plumbing is checked — which function, which item, which parameters, fresh targets, no aliasing — not the real text/calendar/encoding behaviour of the wrapped library); the strings/bytes case helpers are not encoded (their results need concrete text)"]},
     "C20": {"quick": [J("^vhC20_ulule_L2$", samples=4, **RLU), J("^vhC20_native(slow)?_n2$|^vhC20_overlap_n2$", samples=2, **RLN), J("^vhC20_nativeconc_n2$", preempt=2, samples=2, maxpaths=600000, **RLN)],
             "thorough": [J("^vhC20_ulule_L3$", samples=8, **RLU), J("^vhC20_native(slow)?_n3$|^vhC20_overlap_n3$", samples=2, **RLN), J("^vhC20_nativeconc_n3$", preempt=2, samples=2, maxpaths=3000000, **RLN)], "bounds": {"keys": 2, "quota": "1..2", "bursts": 2},
             "assumptions": ["ulule: the third-party store is a harness-side per-key counter with a symbolic limit (single window) and an injectable error; the real limiter.Limiter.Get is executed",
